@@ -99,7 +99,10 @@ func (g *Generator) parseManual(srcType, destType types.Type) []string {
 						} else {
 							logx.Fatalf("found more than one manual write method: (%s).%s", recvTypeName, fn.Name.Name)
 						}
-						names := findAssignedFieldPaths(fn, param.Names[0].Name)
+						var names []string
+						if len(param.Names) > 0 {
+							names = findAssignedFieldPaths(fn, param.Names[0].Name)
+						}
 						for _, n := range names {
 							g.writeDestSet.Adds(n)
 						}
@@ -114,7 +117,10 @@ func (g *Generator) parseManual(srcType, destType types.Type) []string {
 						} else {
 							logx.Fatalf("found more than one manual read method: (%s).%s", recvTypeName, fn.Name.Name)
 						}
-						names := findAssignedFieldPaths(fn, recv.Names[0].Name)
+						var names []string
+						if len(recv.Names) > 0 {
+							names = findAssignedFieldPaths(fn, recv.Names[0].Name)
+						}
 						for _, n := range names {
 							if types.ConvertibleTo(srcType, g.newShooterIface()) && !ast.IsExported(n) {
 								//r.x = 0 => SetX, SetX may not exist
